@@ -6,6 +6,9 @@ cd /repo || exit 2
 if ! git diff --quiet; then echo "REPO DIRTY - abort"; exit 2; fi
 if ! git apply --check "$P" 2>/dev/null; then echo "PATCH DOES NOT APPLY: $P"; exit 3; fi
 git apply "$P"
+# Evidence of runs against a seeded (deliberately broken) tree goes to a scratch directory, never to
+# /verif/evidence, which must always describe the unchanged tree.
+export VERIF_EVIDENCE_DIR="${VERIF_EVIDENCE_DIR:-$(mktemp -d /tmp/seed-evidence.XXXXXX)}"
 for c in "$@"; do
   OUT=$(cd /verif && VERIF_WATCHDOG_S=${VERIF_WATCHDOG_S:-600} ./check $c --tier ${TIER:-quick} 2>&1)
   RC=$?
@@ -13,4 +16,5 @@ for c in "$@"; do
   echo "$c rc=$RC $SIG | $(echo "$OUT" | grep -E "tier=" | head -1 | cut -c1-120)"
 done
 git checkout -q -- .
+case "$VERIF_EVIDENCE_DIR" in /tmp/seed-evidence.*) rm -rf "$VERIF_EVIDENCE_DIR";; esac
 git status --short | grep -v '^??' | head -3
